@@ -325,6 +325,12 @@ func (eng *Engine) verifyFunc(p *packages.Package, key string) (*FuncVerifier, e
 		fv.entry.ghost[g.Name] = st.ghost[g.Name]
 		fv.ghostIn = append(fv.ghostIn, inputVar{Name: g.Name, Term: n})
 	}
+	// global ghost variables
+	for _, g := range eng.contracts.GhostOrder {
+		n := fv.fresh("gv_"+g, ghostSort(eng.contracts.GhostVars[g]))
+		st.ghost[g] = Val{T: n, Sort: ghostSort(eng.contracts.GhostVars[g])}
+		fv.entry.ghost[g] = st.ghost[g]
+	}
 	// heaps mentioned so far belong to the entry state
 	for h, t := range st.heaps {
 		fv.entry.heaps[h] = t
@@ -573,6 +579,19 @@ func (fv *FuncVerifier) lockTerm(st *State, path string) string {
 	if _, ok := fv.entry.locks[path]; !ok {
 		fv.decls = append(fv.decls, "(declare-fun "+n+" () Int)")
 		fv.entry.locks[path] = n
+		// unless the contract speaks about held(...), locks are not held by the caller on entry
+		mentions := false
+		for _, r := range fv.contract.Requires {
+			if strings.Contains(r.Text, "held(") {
+				mentions = true
+			}
+		}
+		if !mentions {
+			fv.assumeGlobal("(= " + n + " 0)")
+			fv.note("locks are assumed not to be held by the calling goroutine on entry (unless required otherwise)")
+		} else {
+			fv.assumeGlobal("(and (<= 0 " + n + ") (<= " + n + " 2))")
+		}
 	}
 	st.locks[path] = n
 	return n
